@@ -21,6 +21,8 @@ def is_sublist(a, b):
 
 
 def correspondence(ctx):
+    # history-sensitive stream first (a fresh process), and once more after the sweep
+    _cross_scheme(ctx)
     L = 6 if ctx.thorough else (5 if ctx.deepen else 4)
     rng0 = ctx.rng("c08-lines")
     jobs = []
@@ -104,7 +106,7 @@ def correspondence(ctx):
         _judge(ctx, stream, bench, suspects)
         if name == "semver":
             ctx.sample({"line": lines[100], "model": answers[100], "scheme": name})
-    _cross_scheme(ctx)
+    _cross_scheme(ctx, "c08-cross-after")
 
 
 def _through_from_string(ctx, name, bench, cons, objs, ans, line, m, inv_of, rng):
@@ -195,13 +197,13 @@ def _judge(ctx, stream, bench, suspects):
             ctx.disagree(stream, line, impl, ans, False, d, spec=ans)
 
 
-def _cross_scheme(ctx):
+def _cross_scheme(ctx, label="c08-cross"):
     """the same constraint texts simplified under several schemes, interleaved in one process: whatever is
     remembered about a list under one scheme must not leak into the next (the order of 1.0.0-alpha and 1.0.0
     differs between deb and semver, and the versions belong to different classes)"""
     from harness import pools
     from harness.props.c07 import SHARED_TEXTS
-    rng = ctx.rng("c08-cross")
+    rng = ctx.rng(label)
     tables = {}
     for name in S.ALL:
         p = pools.Pool(name)
